@@ -337,6 +337,32 @@ def ts2(P, C, only=None, rule_floor=8):
     return n
 
 
+def ts2b_other_objects(P, C):
+    """tables built through a pointer other than `this` (the stacking constructor's padding helper builds `snew`): they are owned by a smart
+    pointer, so their destructor (clear()) runs if a later allocation throws — the same initialisation discipline applies."""
+    n = 0
+    for f in P.functions.values():
+        if f.unit != "driver" or not (f.kind == "lambda" or (f.cls or "").startswith("photospline::splinetable<")):
+            continue
+        objs = set()
+        for i in f.walk():
+            ap = assign_parts(f, i)
+            if ap:
+                r = root_member(f, ap[0])
+                if r and r[2] not in ("this", "other"):
+                    objs.add(r[2])
+        for o in sorted(objs):
+            w = Window(P, f, o)
+            v = [x for x in w.run() if x[1] == "TS-2b"]
+            n += 1
+            name = fshort(f)
+            if not v:
+                C.ob("TS-2b", name, "pointer-arrays:" + o, True, f.where(), "object %s: no raising element while one of its pointer arrays has uninitialised elements" % o)
+            for (i, _r, why) in v:
+                C.ob("TS-2b", name, "uninitialised-elements:" + o, False, f.loc(i), "object %s: %s" % (o, why))
+    return n
+
+
 def reset_fn_ok(P, C):
     """clear(): null-checks before freeing, frees every owned pointer, ends in the empty state, not conditional on ndim."""
     C.rule("TS-4", "field coverage: clear() (the destructor's body) releases every allocator-typed member under a null check and resets every "
@@ -861,6 +887,7 @@ def raw_local_released(P, f, vid, src, mt):
 
 def run_c20(P, C):
     n2 = ts2(P, C)
+    ts2b_other_objects(P, C)
     r = reset_fn_ok(P, C)
     if r is None:
         C.ob("TS-4", "~splinetable", "reset-function", False, "include/photospline/splinetable.h",
